@@ -815,3 +815,65 @@ def rule_eval_no_context(db: ProgramDB) -> List[Instance]:
     if n_calls < 3:
         raise AnalysisError(f"only {n_calls} user-code call site(s) found in Variable")
     return out
+
+
+# ---------------------------------------------------------------------------------- STACK-READ-LIVE
+def rule_stack_read_live(db: ProgramDB) -> List[Instance]:
+    """The stack of open `with <query>:` blocks is a class attribute that an evaluation REBINDS (it sets the caller's stack aside and
+    puts it back), so 'the block that is open now' is what the attribute holds when it is read.  A read that happens once - at import
+    time: a module-level alias, a class attribute, a default argument - keeps pointing at the list that was the stack then, i.e. the
+    caller's: user code run by an evaluation inside `with query:` then sees the caller's open block again and attaches what it
+    builds to the caller's query.  Rule: every read of the attribute sits in a function body (evaluated at call time) and is not
+    stored into a module global or an attribute of an object."""
+    out = []
+    se = db.cls("SymbolicExpression")
+    stack_attrs = {n for n in se.class_attrs if "stack" in n}
+    if not stack_attrs:
+        raise AnalysisError("SymbolicExpression: no class attribute holding the context stack found")
+    n = 0
+    for mod in db.modules.values():
+        # nodes evaluated at import: everything that is not inside a function body (defaults and decorators are outside)
+        def at_import(node, inside_fn_body=False):
+            for ch in ast.iter_child_nodes(node):
+                if isinstance(node, (ast.FunctionDef, ast.AsyncFunctionDef, ast.Lambda)):
+                    body = node.body if isinstance(node.body, list) else [node.body]
+                    in_body = any(ch is b for b in body)
+                    if in_body:
+                        yield from in_fn(ch)
+                    else:
+                        yield from at_import(ch)         # defaults, decorators, annotations
+                else:
+                    yield ch
+                    yield from at_import(ch)
+
+        def in_fn(node):
+            # still look for nested defs: their defaults are evaluated when the outer function runs (call time): fine
+            return iter(())
+        for x in at_import(mod.tree):
+            if isinstance(x, ast.Attribute) and x.attr in stack_attrs and isinstance(x.ctx, ast.Load):
+                st = x
+                while st is not None and not isinstance(st, ast.stmt):
+                    st = db.parent(st)
+                if isinstance(st, (ast.AnnAssign, ast.Assign)) and isinstance(db.parent(st), ast.ClassDef) and db.parent(st).name == se.name:
+                    continue
+                n += 1
+                import os as _os
+                out.append(inst("STACK-READ-LIVE", VIOLATION, _os.path.relpath(mod.path, db.repo), f"{mod.name}[{unparse(st)[:60] if st is not None else unparse(x)}]",
+                                f"`{unparse(x)}` is read once, when the module is imported: the name it is bound to keeps the list that was the stack then, while "
+                                f"every evaluation rebinds the class attribute (it sets the caller's stack aside): user code run by evaluate() inside `with query:` - "
+                                f"a predicate that builds a query of its own - finds the caller's block open and attaches to the caller's query", line=x.lineno))
+    # reads inside functions: not stored beyond the call
+    for fn in sorted(db.all_functions(), key=lambda f: f.qualname):
+        for a in own_nodes(fn.node):
+            if isinstance(a, ast.Assign) and any(isinstance(y, ast.Attribute) and y.attr in stack_attrs and isinstance(y.ctx, ast.Load) for y in ast.walk(a.value)) \
+                    and not isinstance(a.value, ast.Call):
+                n += 1
+                globals_ = {nm for g in own_nodes(fn.node) if isinstance(g, (ast.Global, ast.Nonlocal)) for nm in g.names}
+                long_lived = [t for t in a.targets if (isinstance(t, ast.Attribute) and t.attr not in stack_attrs) or (isinstance(t, ast.Name) and t.id in globals_)]
+                out.append(inst("STACK-READ-LIVE", VIOLATION if long_lived else HOLDS, fn, f"{fn.short}[{unparse(a)[:50]}]",
+                                "kept in a local for the duration of the call (the set-aside / put-back pair)" if not long_lived else
+                                f"`{unparse(a)[:70]}` keeps the list that is the stack now beyond this call", line=a.lineno))
+    if n == 0:
+        out.append(inst("STACK-READ-LIVE", HOLDS, se, "SymbolicExpression[context stack read at call time only]", "no read of the stack outside a function body, no alias kept"))
+    return out
+
